@@ -87,7 +87,7 @@ def outcome(fn, *args):
     try:
         r = fn(*args)
     except Exception as e:  # noqa - the exception type is the outcome
-        return ('raises', type(e).__name__)
+        return ('raises', type(e).__name__) + tuple(c.__name__ for c in type(e).__mro__[1:])
     if isinstance(r, int) and not isinstance(r, bool) and r.bit_length() > 4096:
         return ('ok', 'int', 'bits=%d hash=%d' % (r.bit_length(), hash(r)))
     return ('ok', type(r).__name__, repr(r))
@@ -135,6 +135,8 @@ def check(case):
             else:
                 want = outcome(fn, v, x)
             got = outcome(fn, q, q2)
+    if want[0] == 'raises' and got[0] == 'raises' and want[1] in got[1:]:
+        got = want      # the same exception class or a subclass of it
     if want != got:
         raise Violation('transparent', case, '%s/%s: on value %r, on Quantity %r' % (kind, op, want, got),
                         tags=(kind, op))
